@@ -446,6 +446,12 @@ func (tps *TPS) combineShares() PK {
 		}
 	}
 
+	// Plus does not reduce: keep the secret key in the field, or the sum of many shares no longer fits its 32 byte encoding
+	tps.sk.x.Mod(tps.Curve.GroupOrder)
+	for i := 0; i < len(tps.sk.ys); i++ {
+		tps.sk.ys[i].Mod(tps.Curve.GroupOrder)
+	}
+
 	pk := PK{
 		X: tps.pp.g2.Mul(tps.sk.x),
 		Y: make([]*math.G2, len(tps.sk.ys)),
